@@ -100,6 +100,7 @@ kdump_bmp_new(const struct kdump_bmp_ops *ops)
 	if (bmp) {
 		bmp->refcnt = 1;
 		bmp->ops = ops;
+		bmp->fmt_genp = NULL;
 		err_init(&bmp->err, ERRBUF);
 	}
 	return bmp;
@@ -149,6 +150,19 @@ bmp_decref_locked(kdump_bmp_t *bmp)
 	return refcnt;
 }
 
+/** Check that the dump which a bitmap describes is still open.
+ * @param bmp  Bitmap object.
+ * @returns    Error status.
+ */
+static kdump_status
+check_format(kdump_bmp_t *bmp)
+{
+	return bmp->fmt_genp && *bmp->fmt_genp != bmp->fmt_gen
+		? status_err(&bmp->err, KDUMP_ERR_INVALID,
+			     "The dump file of this bitmap is no longer open")
+		: KDUMP_OK;
+}
+
 const char *
 kdump_bmp_get_err(const kdump_bmp_t *bmp)
 {
@@ -159,20 +173,35 @@ kdump_status
 kdump_bmp_get_bits(kdump_bmp_t *bmp,
 		   kdump_addr_t first, kdump_addr_t last, unsigned char *raw)
 {
+	kdump_status status;
+
 	err_clear(&bmp->err);
+	status = check_format(bmp);
+	if (status != KDUMP_OK)
+		return status;
 	return bmp->ops->get_bits(&bmp->err, bmp, first, last, raw);
 }
 
 kdump_status
 kdump_bmp_find_set(kdump_bmp_t *bmp, kdump_addr_t *idx)
 {
+	kdump_status status;
+
 	err_clear(&bmp->err);
+	status = check_format(bmp);
+	if (status != KDUMP_OK)
+		return status;
 	return bmp->ops->find_set(&bmp->err, bmp, idx);
 }
 
 kdump_status
 kdump_bmp_find_clear(kdump_bmp_t *bmp, kdump_addr_t *idx)
 {
+	kdump_status status;
+
 	err_clear(&bmp->err);
+	status = check_format(bmp);
+	if (status != KDUMP_OK)
+		return status;
 	return bmp->ops->find_clear(&bmp->err, bmp, idx);
 }
